@@ -349,7 +349,7 @@ func (C06) Run(t *testing.T, scAny any) *sim.Outcome {
 		return runC06Scan(sc, sb, out, ctxs)
 	}
 	// from here on the scenario with $SANDBOX replaced by this run's sandbox root
-	sc = &C06Scenario{Op: sc.Op, Image: *render(&sc.Image, sb.Root), Requirer: sc.Requirer, Paths: sc.Paths, OSFaults: sc.OSFaults}
+	sc = &C06Scenario{Op: sc.Op, Image: *render(&sc.Image, sb.Root), Requirer: sc.Requirer, Paths: append([]string(nil), sc.Paths...), OSFaults: sc.OSFaults}
 	for i, p := range sc.Paths {
 		sc.Paths[i] = strings.TrimPrefix(strings.ReplaceAll(p, "$SANDBOX", sb.Root), "/")
 	}
@@ -499,7 +499,12 @@ func (C06) Run(t *testing.T, scAny any) *sim.Outcome {
 			if within("target", p) {
 				// link targets are rewritten to absolute paths below the target: keep the history free of
 				// the sandbox's own location
-				hist = append(hist, p+"="+strings.ReplaceAll(after[p].String(), sb.Jail, "$JAIL"))
+				// (entry names may be the sandbox's own absolute paths, too)
+				clean := strings.NewReplacer(sb.Jail, "$JAIL", strings.TrimPrefix(sb.Jail, "/"), "$JAIL")
+				if strings.HasPrefix("target"+sb.Jail, p+"/") && p != "target" {
+					continue // a directory on the way to such a path
+				}
+				hist = append(hist, clean.Replace(p)+"="+clean.Replace(after[p].String()))
 			}
 		}
 	default:
